@@ -230,6 +230,13 @@ def guarded(label, fn, *args):
         rule = Rule(label, "anchor of this rule not found (fails closed)")
         rule.violations.append(Violation(label, "anchor", "anchor not found: %s (the construct this rule is anchored in moved or disappeared; the rule fails closed)" % e))
         return [rule]
+    except Exception as e:      # noqa: BLE001 - an analyser that cannot cope with the code it is given must not pass
+        import traceback
+        tb = traceback.format_exc().strip().splitlines()
+        rule = Rule(label, "the rule could not be evaluated on this tree (fails closed)")
+        rule.violations.append(Violation(label, "not-evaluated", "the rule engine could not evaluate this rule on the current tree (%s: %s at %s); it fails closed" % (
+            type(e).__name__, e, tb[-3].strip() if len(tb) >= 3 else "?")))
+        return [rule]
 
 
 def anchor_guard(rule, fn):
